@@ -14,8 +14,10 @@
    values are nat ids of the caller's non-NULL value pointers.  Paths (list of child indexes from the header)
    play the role of the local pointer variables of the C functions.
 
-   [fixed] = true models the code with fixes/C17-trie-rm-alive.patch (trie_rm tests trie_node_alive);
-   [fixed] = false is the code as found (used by the ..._refuted theorems). *)
+   Code variants ([fixes] record): f_rm = trie_rm tests the node (fixes/C17-trie-rm-alive.patch, in /repo since
+   2f5e8c6); f_removed = the "removed" flag of fixes/C18-trie-removed-parked.patch; f_split = trie_node_split keeps
+   the split node as the lower part (fixes/C18-trie-split-keeps-node.patch).  FX_FOUND = the code as first found,
+   FX_REPO = rm fix only, FX_ALL = all three (the ..._refuted theorems are about the first two). *)
 From Coq Require Import List ZArith Bool Arith Lia.
 Import ListNotations.
 Require Import Verif.gen.Consts_trie.
@@ -33,7 +35,25 @@ Definition c2i (b : byte) : nat :=
 Record notifier := { nf_events : Z; nf_fn : nat; nf_ud : nat }.
 
 (* struct trie_node without segment/children: idx is the position in the parent's array *)
-Record ninfo := { n_id : nat; n_key : option key; n_val : option val; n_rc : nat; n_nots : list notifier }.
+Record ninfo := { n_id : nat; n_key : option key; n_val : option val; n_rc : nat; n_nots : list notifier;
+                  n_removed : bool }.
+
+Record fixes := { f_rm : bool; f_removed : bool; f_split : bool }.
+Definition FX_FOUND := {| f_rm := false; f_removed := false; f_split := false |}.
+Definition FX_REPO := {| f_rm := true; f_removed := false; f_split := false |}.
+Definition FX_ALL := {| f_rm := true; f_removed := true; f_split := true |}.
+
+(* field updates *)
+Definition set_rc (c : nat) (i : ninfo) : ninfo :=
+  {| n_id := n_id i; n_key := n_key i; n_val := n_val i; n_rc := c; n_nots := n_nots i; n_removed := n_removed i |}.
+Definition set_kv (k : option key) (v : option val) (i : ninfo) : ninfo :=
+  {| n_id := n_id i; n_key := k; n_val := v; n_rc := n_rc i; n_nots := n_nots i; n_removed := n_removed i |}.
+Definition set_nots (l : list notifier) (i : ninfo) : ninfo :=
+  {| n_id := n_id i; n_key := n_key i; n_val := n_val i; n_rc := n_rc i; n_nots := l; n_removed := n_removed i |}.
+Definition set_removed (b : bool) (i : ninfo) : ninfo :=
+  {| n_id := n_id i; n_key := n_key i; n_val := n_val i; n_rc := n_rc i; n_nots := n_nots i; n_removed := b |}.
+Definition set_id (id : nat) (i : ninfo) : ninfo :=
+  {| n_id := id; n_key := n_key i; n_val := n_val i; n_rc := n_rc i; n_nots := n_nots i; n_removed := n_removed i |}.
 
 Inductive tnode := TN : ninfo -> list byte -> forest -> tnode
 with forest := FNil | FCons : option tnode -> forest -> forest.
@@ -53,7 +73,8 @@ Fixpoint fapp (f g : forest) : forest := match f with FNil => g | FCons c f' => 
 Fixpoint fall_none (f : forest) : bool :=
   match f with FNil => true | FCons None f' => fall_none f' | FCons (Some _) _ => false end.
 
-Definition fresh_info (id : nat) : ninfo := {| n_id := id; n_key := None; n_val := None; n_rc := 0; n_nots := [] |}.
+Definition fresh_info (id : nat) : ninfo :=
+  {| n_id := id; n_key := None; n_val := None; n_rc := 0; n_nots := []; n_removed := false |}.
 
 (* new_child_node: grow the array to max(idx+1, 30) when idx is beyond it, then store the new node *)
 Definition new_child (f : forest) (idx : nat) (c : tnode) : forest :=
@@ -63,7 +84,9 @@ Definition new_child (f : forest) (idx : nat) (c : tnode) : forest :=
 (* trie_node_alive *)
 Definition alive_i (i : ninfo) : bool :=
   match n_val i with None => false | Some _ => negb (n_rc i =? 0) end.
-Definition alive (t : tnode) : bool := alive_i (t_info t).
+(* trie_node_present (removed is never set without f_removed, so this is trie_node_alive there) *)
+Definition present_i (i : ninfo) : bool := alive_i i && negb (n_removed i).
+Definition alive (t : tnode) : bool := present_i (t_info t).
 
 (* ---------- the walk over a segment (shared by trie_insert and trie_lookup) ---------- *)
 Inductive strip_res :=
@@ -80,32 +103,32 @@ Fixpoint strip (seg : list byte) (k : key) (sc : nat) : strip_res :=
                end
   end.
 
-(* trie_node_split(cur_node, seg_cnt): the lower part (new node, id nid) takes children, value, key, refcount and
-   the notifier list; cur_node keeps its id and the first seg_cnt segment characters *)
-Definition split (i : ninfo) (seg : list byte) (f : forest) (sc : nat) (nid : nat) : tnode :=
-  let lower := TN {| n_id := nid; n_key := n_key i; n_val := n_val i; n_rc := n_rc i; n_nots := n_nots i |}
-                  (skipn (S sc) seg) f in
-  TN (fresh_info (n_id i)) (firstn sc seg) (new_child FNil (c2i (nth sc seg 0)) lower).
+(* trie_node_split(cur_node, seg_cnt).  As found: the lower part is a NEW node (id nid) that takes children, value,
+   key, refcount, removed flag and the notifier list, cur_node keeps its id and the first seg_cnt segment characters.
+   With f_split: cur_node (id kept) stays the lower part, the new node (id nid) becomes the upper part. *)
+Definition split (fx : fixes) (i : ninfo) (seg : list byte) (f : forest) (sc : nat) (nid : nat) : tnode :=
+  let lower := TN (if f_split fx then i else set_id nid i) (skipn (S sc) seg) f in
+  TN (fresh_info (if f_split fx then nid else n_id i)) (firstn sc seg) (new_child FNil (c2i (nth sc seg 0)) lower).
 
 (* trie_insert below node n, [k] = the part of the key after the character that led to n.
    Returns the new node, the path (relative to n) of the node for the key, the next free id. *)
-Fixpoint ins_t (n : tnode) (k : key) (hdr : bool) (nid : nat) {struct n} : tnode * path * nat :=
+Fixpoint ins_t (fx : fixes) (n : tnode) (k : key) (hdr : bool) (nid : nat) {struct n} : tnode * path * nat :=
   match n with
   | TN i seg f =>
     match strip seg k 0 with
     | SKeyEnd sc =>
       if sc <? length seg then
         (* after the loop: split, and new_child_node(t, cur_node, '\0') *)
-        match split i seg f sc nid with
+        match split fx i seg f sc nid with
         | TN i1 s1 f1 => (TN i1 s1 (new_child f1 (c2i 0) (TN (fresh_info (S nid)) [] FNil)), [], S (S nid))
         end
       else (n, [], nid)
     | SMismatch sc c k' =>
-      match split i seg f sc nid with
+      match split fx i seg f sc nid with
       | TN i1 s1 f1 => (TN i1 s1 (new_child f1 (c2i c) (TN (fresh_info (S nid)) k' FNil)), [c2i c], S (S nid))
       end
     | SSegEnd c k' =>
-      match ins_f f (c2i c) k' nid with
+      match ins_f fx f (c2i c) k' nid with
       | Some (f', p, nid') => (TN i seg f', c2i c :: p, nid')
       | None =>
         if hdr then (TN i seg (new_child f (c2i c) (TN (fresh_info nid) k' FNil)), [c2i c], S nid)
@@ -116,16 +139,16 @@ Fixpoint ins_t (n : tnode) (k : key) (hdr : bool) (nid : nat) {struct n} : tnode
       end
     end
   end
-with ins_f (f : forest) (j : nat) (k : key) (nid : nat) {struct f} : option (forest * path * nat) :=
+with ins_f (fx : fixes) (f : forest) (j : nat) (k : key) (nid : nat) {struct f} : option (forest * path * nat) :=
   match f with
   | FNil => None
   | FCons c f' =>
     match j with
     | 0 => match c with
-           | Some t => let '(t', p, nid') := ins_t t k false nid in Some (FCons (Some t') f', p, nid')
+           | Some t => let '(t', p, nid') := ins_t fx t k false nid in Some (FCons (Some t') f', p, nid')
            | None => None
            end
-    | S j' => match ins_f f' j' k nid with
+    | S j' => match ins_f fx f' j' k nid with
               | Some (f'', p, nid') => Some (FCons c f'', p, nid')
               | None => None
               end
@@ -195,15 +218,15 @@ with nots_f (f : forest) (j : nat) (p : path) {struct f} : list (list notifier) 
 (* find a node by id (what a raw pointer held by an iterator denotes); None = the node was freed *)
 Fixpoint find_t (n : tnode) (id : nat) {struct n} : option path :=
   match n with
-  | TN i seg f => if n_id i =? id then Some [] else find_f f id 0
+  | TN i seg f => if n_id i =? id then Some [] else find_f f id
   end
-with find_f (f : forest) (id : nat) (pos : nat) {struct f} : option path :=
+with find_f (f : forest) (id : nat) {struct f} : option path :=
   match f with
   | FNil => None
   | FCons c f' =>
     match (match c with Some t => find_t t id | None => None end) with
-    | Some p => Some (pos :: p)
-    | None => find_f f' id (S pos)
+    | Some p => Some (0 :: p)
+    | None => match find_f f' id with Some p => Some (match p with [] => [] | j :: p' => S j :: p' end) | None => None end
     end
   end.
 
@@ -272,14 +295,11 @@ Definition node_destroy (r : tnode) (p : path) : tnode * list ev :=
     | None => (r, [])
     | Some v =>
       let evs := notify r p TRIE_NOTIFY_DELETED (n_key i) (Some v) None in
-      let r1 := upd_t r p (fun i => {| n_id := n_id i; n_key := None; n_val := None; n_rc := n_rc i; n_nots := n_nots i |}) in
+      let r1 := upd_t r p (fun i => set_removed false (set_kv None None i)) in
       (release r1 p, evs)
     end
   | None => (r, [])
   end.
-
-Definition set_rc (c : nat) (i : ninfo) : ninfo :=
-  {| n_id := n_id i; n_key := n_key i; n_val := n_val i; n_rc := c; n_nots := n_nots i |}.
 
 Definition node_ref (r : tnode) (p : path) : tnode :=
   match p with [] => r | _ => upd_t r p (fun i => set_rc (S (n_rc i)) i) end.
@@ -294,49 +314,53 @@ Definition node_deref (r : tnode) (p : path) : tnode * list ev :=
   | None => (r, [])
   end.
 
-(* ---------- trie_node_next(node, root, all = QB_FALSE): pre-order successor inside root's subtree ---------- *)
+(* ---------- trie_node_next(node, root, all = QB_FALSE): pre-order successor inside root's subtree ----------
+   Paths returned by the forest functions are relative to the forest they are called on (index 0 = its first
+   slot); [bump] shifts the head index when the result comes from the tail of the array. *)
+Definition bump (p : path) : path := match p with [] => [] | j :: p' => S j :: p' end.
+
 Fixpoint first_t (t : tnode) {struct t} : option path :=       (* child/outward from t: first live strict descendant *)
-  match t with TN _ _ f => first_f f 0 end
-with first_f (f : forest) (pos : nat) {struct f} : option path :=
+  match t with TN _ _ f => first_f f end
+with first_f (f : forest) {struct f} : option path :=
   match f with
   | FNil => None
   | FCons c f' =>
-    match first_f f' (S pos) with                      (* for (i = num_children - 1; i >= 0; i--) *)
-    | Some p => Some p
+    match first_f f' with                              (* for (i = num_children - 1; i >= 0; i--) *)
+    | Some p => Some (bump p)
     | None => match c with
               | None => None
-              | Some t => if alive t then Some [pos]
-                          else match first_t t with Some p => Some (pos :: p) | None => None end
+              | Some t => if alive t then Some [0]
+                          else match first_t t with Some p => Some (0 :: p) | None => None end
               end
     end
   end.
 
-Definition self_or_first (c : option tnode) (pos : nat) : option path :=
+Definition self_or_first (c : option tnode) : option path :=
   match c with
   | None => None
-  | Some t => if alive t then Some [pos] else match first_t t with Some p => Some (pos :: p) | None => None end
+  | Some t => if alive t then Some [0] else match first_t t with Some p => Some (0 :: p) | None => None end
   end.
 
 Fixpoint next_t (t : tnode) (rel : path) {struct t} : option path :=
   match t with
   | TN _ _ f =>
     match rel with
-    | [] => first_f f 0
-    | j :: rel' => next_f f j rel' 0
+    | [] => first_f f
+    | j :: rel' => next_f f j rel'
     end
   end
-with next_f (f : forest) (j : nat) (rel : path) (pos : nat) {struct f} : option path :=
+with next_f (f : forest) (j : nat) (rel : path) {struct f} : option path :=
   match f with
   | FNil => None
   | FCons c f' =>
     match j with
     | 0 => match c with
-           | Some t => match next_t t rel with Some p => Some (pos :: p) | None => None end
+           | Some t => match next_t t rel with Some p => Some (0 :: p) | None => None end
            | None => None
            end
-    | S j' => match next_f f' j' rel (S pos) with
-              | Some p => Some p
-              | None => self_or_first c pos             (* sibling/parent: for (i = p->idx - 1; i >= 0; i--) *)
+    | S j' => match next_f f' j' rel with
+              | Some p => Some (bump p)
+              | None => self_or_first c                 (* sibling/parent: for (i = p->idx - 1; i >= 0; i--) *)
               end
     end
   end.
@@ -396,16 +420,20 @@ Definition set_root (t : trie) (r : tnode) : trie :=
   {| t_root := r; t_len := t_len t; t_next := t_next t; t_iters := t_iters t |}.
 
 (* trie_put *)
-Definition do_put (t : trie) (k : key) (v : val) : trie * list ev :=
-  let '(r1, p, nid) := ins_t (t_root t) k true (t_next t) in
+Definition do_put (fx : fixes) (t : trie) (k : key) (v : val) : trie * list ev :=
+  let '(r1, p, nid) := ins_t fx (t_root t) k true (t_next t) in
   match get_at r1 p with
   | Some (TN i _ _) =>
-    let r2 := upd_t r1 p (fun i => {| n_id := n_id i; n_key := Some k; n_val := Some v; n_rc := n_rc i; n_nots := n_nots i |}) in
-    match n_val i with
+    (* if (n->removed): the removal an iterator was holding up is completed now, this is a new entry
+       (n_removed is never set without f_removed) *)
+    let evs0 := if n_removed i then notify r1 p TRIE_NOTIFY_DELETED (n_key i) (n_val i) None else [] in
+    let old_v := if n_removed i then None else n_val i in
+    let r2 := upd_t r1 p (fun i => set_removed false (set_kv (Some k) (Some v) i)) in
+    match old_v with
     | None =>
       let r3 := node_ref r2 p in
       ({| t_root := r3; t_len := t_len t + 1; t_next := nid; t_iters := t_iters t |},
-       notify r3 p TRIE_NOTIFY_INSERTED (Some k) None (Some v))
+       evs0 ++ notify r3 p TRIE_NOTIFY_INSERTED (Some k) None (Some v))
     | Some ov =>
       ({| t_root := r2; t_len := t_len t; t_next := nid; t_iters := t_iters t |},
        notify r2 p TRIE_NOTIFY_REPLACED (n_key i) (Some ov) (Some v))
@@ -413,14 +441,15 @@ Definition do_put (t : trie) (k : key) (v : val) : trie * list ev :=
   | None => (t, [])
   end.
 
-(* trie_rm; [fixed]: with the trie_node_alive test of fixes/C17-trie-rm-alive.patch *)
-Definition do_rm (fixed : bool) (t : trie) (k : key) : trie * Z * list ev :=
+(* trie_rm; f_rm: with the node test of fixes/C17-trie-rm-alive.patch; f_removed: n->removed = QB_TRUE *)
+Definition do_rm (fx : fixes) (t : trie) (k : key) : trie * Z * list ev :=
   match lookup (t_root t) k true with
   | Some p =>
-    if fixed && negb (match get_at (t_root t) p with Some n => alive n | None => false end)
+    if f_rm fx && negb (match get_at (t_root t) p with Some n => alive n | None => false end)
     then (t, TRIE_QB_FALSE, [])
     else
-      let '(r1, evs) := node_deref (t_root t) p in
+      let r0 := if f_removed fx then upd_t (t_root t) p (set_removed true) else t_root t in
+      let '(r1, evs) := node_deref r0 p in
       ({| t_root := r1; t_len := t_len t - 1; t_next := t_next t; t_iters := t_iters t |}, TRIE_QB_TRUE, evs)
   | None => (t, TRIE_QB_FALSE, [])
   end.
@@ -428,7 +457,10 @@ Definition do_rm (fixed : bool) (t : trie) (k : key) : trie * Z * list ev :=
 (* trie_get *)
 Definition do_get (t : trie) (k : key) : option val :=
   match lookup (t_root t) k true with
-  | Some p => match get_at (t_root t) p with Some n => n_val (t_info n) | None => None end
+  | Some p => match get_at (t_root t) p with
+              | Some n => if n_removed (t_info n) then None else n_val (t_info n)
+              | None => None
+              end
   | None => None
   end.
 
@@ -438,14 +470,14 @@ Definition do_count (t : trie) : Z := (t_len t mod 2 ^ (8 * TRIE_SIZEOF_LENGTH))
 Definition nf_eqb (a : notifier) (events : Z) (fn ud : nat) : bool :=
   (nf_events a =? events)%Z && (nf_fn a =? fn) && (nf_ud a =? ud).
 
-Definition do_notify_add (t : trie) (k : option key) (fn : nat) (events : Z) (ud : nat) : trie * Z :=
+Definition do_notify_add (fx : fixes) (t : trie) (k : option key) (fn : nat) (events : Z) (ud : nat) : trie * Z :=
   if (match k with Some _ => true | None => false end) && has events TRIE_NOTIFY_FREE then (t, - TRIE_EINVAL)%Z
   else
     let '(r1, p, nid) :=
       match k with
       | Some kk => match lookup (t_root t) kk true with
                    | Some p => (t_root t, p, t_next t)
-                   | None => ins_t (t_root t) kk true (t_next t)
+                   | None => ins_t fx (t_root t) kk true (t_next t)
                    end
       | None => (t_root t, [], t_next t)
       end in
@@ -457,8 +489,7 @@ Definition do_notify_add (t : trie) (k : option key) (fn : nat) (events : Z) (ud
       else
         let f := {| nf_events := events; nf_fn := fn; nf_ud := ud |} in
         let tail := match k with Some _ => has events TRIE_NOTIFY_RECURSIVE | None => has events TRIE_NOTIFY_FREE end in
-        let r2 := upd_t r1 p (fun i => {| n_id := n_id i; n_key := n_key i; n_val := n_val i; n_rc := n_rc i;
-                                          n_nots := if tail then n_nots i ++ [f] else f :: n_nots i |}) in
+        let r2 := upd_t r1 p (fun i => set_nots (if tail then n_nots i ++ [f] else f :: n_nots i) i) in
         (set_root t1 r2, 0%Z)
     | None => (t1, - TRIE_EINVAL)%Z
     end.
@@ -472,8 +503,7 @@ Definition do_notify_del (t : trie) (k : option key) (fn : nat) (events : Z) (cm
     | Some (TN i _ _) =>
       let m := fun f => (nf_events f =? events)%Z && (nf_fn f =? fn) && (negb cmp_ud || (nf_ud f =? ud)) in
       if existsb m (n_nots i) then
-        let r1 := upd_t (t_root t) p (fun i => {| n_id := n_id i; n_key := n_key i; n_val := n_val i; n_rc := n_rc i;
-                                                  n_nots := filter (fun f => negb (m f)) (n_nots i) |}) in
+        let r1 := upd_t (t_root t) p (fun i => set_nots (filter (fun f => negb (m f)) (n_nots i)) i) in
         (set_root t (release r1 p), 0%Z)
       else (t, - TRIE_ENOENT)%Z
     | None => (t, - TRIE_ENOENT)%Z
@@ -481,7 +511,7 @@ Definition do_notify_del (t : trie) (k : option key) (fn : nat) (events : Z) (cm
   end.
 
 (* trie_iter_next on an iterator value *)
-Definition iter_next (r : tnode) (it : iter) : res (tnode * iter * option (option key * option val) * list ev) :=
+Definition iter_next (fx : fixes) (r : tnode) (it : iter) : res (tnode * iter * option (option key * option val) * list ev) :=
   match it_n it with
   | None => Ok (r, it, None, [])
   | Some pid =>
@@ -499,10 +529,11 @@ Definition iter_next (r : tnode) (it : iter) : res (tnode * iter * option (optio
               match get_at r pr with
               | Some rt =>
                 let rid := n_id (t_info rt) in
-                match n_val (t_info rt) with
-                | None => match node_next r rid rid with Ok x => Ok (rid, x) | Err e => Err e end
-                | Some _ => Ok (rid, Some pr)
-                end
+                (* si->root->value == NULL, with f_removed: !trie_node_present(si->root) *)
+                if (if f_removed fx then negb (present_i (t_info rt))
+                    else match n_val (t_info rt) with None => true | Some _ => false end)
+                then match node_next r rid rid with Ok x => Ok (rid, x) | Err e => Err e end
+                else Ok (rid, Some pr)
               | None => Err Stray
               end
             end
@@ -544,19 +575,19 @@ Definition iter_free (r : tnode) (it : iter) : res (tnode * list ev) :=
 Definition new_iter (pre : option key) : iter := {| it_prefix := pre; it_n := Some 0; it_root := 0 |}.
 
 (* qb_map_foreach (lib/map.c): iter_create, iter_next until NULL or the callback says stop, iter_free *)
-Fixpoint foreach_loop (fuel : nat) (r : tnode) (it : iter) (stop cnt : nat) (acc : list ev)
+Fixpoint foreach_loop (fx : fixes) (fuel : nat) (r : tnode) (it : iter) (stop cnt : nat) (acc : list ev)
   : res (tnode * list ev) :=
   match fuel with
   | 0 => Err OutOfFuel
   | S fuel' =>
-    match iter_next r it with
+    match iter_next fx r it with
     | Err e => Err e
     | Ok (r1, it1, None, evs) =>
       match iter_free r1 it1 with Ok (r2, evs2) => Ok (r2, acc ++ evs ++ evs2) | Err e => Err e end
     | Ok (r1, it1, Some (k, v), evs) =>
       if S cnt =? stop then
         match iter_free r1 it1 with Ok (r2, evs2) => Ok (r2, acc ++ evs ++ [EVisit k v] ++ evs2) | Err e => Err e end
-      else foreach_loop fuel' r1 it1 stop (S cnt) (acc ++ evs ++ [EVisit k v])
+      else foreach_loop fx fuel' r1 it1 stop (S cnt) (acc ++ evs ++ [EVisit k v])
     end
   end.
 
@@ -591,14 +622,14 @@ Fixpoint iters_del (l : list (nat * iter)) (h : nat) : list (nat * iter) :=
   match l with [] => [] | (h', it) :: l' => if h' =? h then l' else (h', it) :: iters_del l' h end.
 Definition iters_set (l : list (nat * iter)) (h : nat) (it : iter) := (h, it) :: iters_del l h.
 
-Definition step (fixed : bool) (t : trie) (o : op) : res (trie * out * list ev) :=
+Definition step (fx : fixes) (t : trie) (o : op) : res (trie * out * list ev) :=
   match o with
-  | OPut k v => let '(t', evs) := do_put t k v in Ok (t', RUnit, evs)
+  | OPut k v => let '(t', evs) := do_put fx t k v in Ok (t', RUnit, evs)
   | OGet k => Ok (t, RVal (do_get t k), [])
-  | ORm k => let '(t', z, evs) := do_rm fixed t k in Ok (t', RInt z, evs)
+  | ORm k => let '(t', z, evs) := do_rm fx t k in Ok (t', RInt z, evs)
   | OCount => Ok (t, RInt (do_count t), [])
   | OForeach stop =>
-    match foreach_loop (S (size_t (t_root t))) (t_root t) (new_iter None) stop 0 [] with
+    match foreach_loop fx (S (size_t (t_root t))) (t_root t) (new_iter None) stop 0 [] with
     | Ok (r, evs) => Ok (set_root t r, RUnit, evs)
     | Err e => Err e
     end
@@ -609,7 +640,7 @@ Definition step (fixed : bool) (t : trie) (o : op) : res (trie * out * list ev) 
     match iters_get (t_iters t) h with
     | None => Err BadHandle
     | Some it =>
-      match iter_next (t_root t) it with
+      match iter_next fx (t_root t) it with
       | Err e => Err e
       | Ok (r, it', kv, evs) =>
         Ok ({| t_root := r; t_len := t_len t; t_next := t_next t; t_iters := iters_set (t_iters t) h it' |}, RKV kv, evs)
@@ -625,7 +656,7 @@ Definition step (fixed : bool) (t : trie) (o : op) : res (trie * out * list ev) 
         Ok ({| t_root := r; t_len := t_len t; t_next := t_next t; t_iters := iters_del (t_iters t) h |}, RUnit, evs)
       end
     end
-  | ONotifyAdd k fn events ud => let '(t', z) := do_notify_add t k fn events ud in Ok (t', RInt z, [])
+  | ONotifyAdd k fn events ud => let '(t', z) := do_notify_add fx t k fn events ud in Ok (t', RInt z, [])
   | ONotifyDel k fn events => let '(t', z) := do_notify_del t k fn events false 0 in Ok (t', RInt z, [])
   | ONotifyDel2 k fn events ud => let '(t', z) := do_notify_del t k fn events true ud in Ok (t', RInt z, [])
   | ODestroy =>
@@ -667,12 +698,12 @@ Definition guard_split (t : trie) (o : op) : bool :=
   end.
 
 (* a history: the outputs and callback events of every operation, in order; the first error stops the run *)
-Fixpoint run (fixed : bool) (t : trie) (ops : list op) : list (out * list ev) * res trie :=
+Fixpoint run (fx : fixes) (t : trie) (ops : list op) : list (out * list ev) * res trie :=
   match ops with
   | [] => ([], Ok t)
   | o :: ops' =>
-    match step fixed t o with
+    match step fx t o with
     | Err e => ([], Err e)
-    | Ok (t', r, evs) => let '(outs, fin) := run fixed t' ops' in ((r, evs) :: outs, fin)
+    | Ok (t', r, evs) => let '(outs, fin) := run fx t' ops' in ((r, evs) :: outs, fin)
     end
   end.
